@@ -221,6 +221,10 @@ Definition C11_schema_statement : Prop :=
   (forall P nm fl k, structs_of (SDec P (BFStruct nm fl) k) = [gcstruct_of (dec_cmt P) (dec_opc P) (ibytes nm) (map bcf fl)]) /\
   (forall P nm fl k, messages_of (SDec P (BFMessage nm fl) k) = [gcmessage_of (dec_cmt P) (dec_opc P) (ibytes nm) (map bcm fl)]) /\
   (forall P nm tname uns bits ml k, enums_of (SDec P (BFEnum nm tname uns bits ml) k) = [gcenum_of (dec_cmt P) (ibytes nm) (ibytes tname) uns (map bce ml)]) /\
+  (forall P nm fl k, structs_of (SDec P (BFRoStruct nm fl) k) = [gcrostruct_of (dec_cmt P) (dec_opc P) (ibytes nm) (map bcf fl)]) /\
+  (forall P nm ml k, enums_of (SDec P (BFUEnum nm ml) k) = [gcuenum_of (dec_cmt P) (ibytes nm) (map bce ml)]) /\
+  (forall cmt oc nm fl, gcrostruct_of cmt oc nm fl = {| s_name := nm; s_comment := cmt; s_fields := s_fields (cstruct_of nm fl); s_opcode := oc; s_readonly := true |}) /\
+  (forall cmt nm ml, gcuenum_of cmt nm ml = {| e_name := nm; e_comment := cmt; e_opts := e_opts (cenum_of nm [] true ml); e_simple := s_uint32; e_unsigned := true |}) /\
   (forall P nm bl k, unions_of (SDec P (BFUnion nm bl) k) = [gcunion_of (dec_cmt P) (dec_opc P) (ibytes nm) (map bcub bl)]) /\
   (forall cmt oc nm bl, gcunion_of cmt oc nm bl = {| un_name := nm; un_comment := cmt; un_fields := un_fields (cunion_of nm bl); un_opcode := oc |}) /\
   (forall cmt oc nm fl, gcstruct_of cmt oc nm fl = {| s_name := nm; s_comment := cmt; s_fields := s_fields (cstruct_of nm fl); s_opcode := oc; s_readonly := false |}) /\
